@@ -6,12 +6,12 @@
    variables: snap = abstract state at the starting boundary, k = edges).  At the
    next boundary (or halt) the WHOLE abstract state must equal IsaStep(snap)
    ("and nothing else changes") and k must equal the cost the ISA prescribes.    *)
-EXTENDS Gen, TLC, FiniteSets
+EXTENDS Gen, TLC, FiniteSets, Json
 I == INSTANCE Isa
 
 CONSTANT Suite          \* which family of initial states ("shapes1", "shapes2", ...)
-VARIABLES m, snap, k, tag, left
-vars == <<m, snap, k, tag, left>>
+VARIABLES m, snap, k, tag, left, sd
+vars == <<m, snap, k, tag, left, sd>>
 
 Limit == 700
 
@@ -65,16 +65,16 @@ Seeds ==
                     \cup {80 + r : r \in 0..2} \cup {4 + r : r \in 0..2},
              a \in 0..255, f \in 0..15 }
 
-MkS(sd) == Mk(sd[1], sd[2], sd[3], sd[4], sd[5], sd[6], sd[7], sd[8], sd[9], sd[10], NoCells)
+MkS(q) == Mk(q[1], q[2], q[3], q[4], q[5], q[6], q[7], q[8], q[9], q[10], NoCells)
 
-Init == /\ m \in Seeds /\ snap = 0 /\ k = 0 /\ tag = "seed" /\ left = FALSE
+Init == /\ m \in Seeds /\ snap = 0 /\ k = 0 /\ tag = "seed" /\ left = FALSE /\ sd = m
 Next ==
   \/ /\ tag = "seed"
-     /\ m' = MkS(m) /\ snap' = AbsC(MkS(m)) /\ k' = 0 /\ tag' = "run" /\ left' = FALSE
+     /\ m' = MkS(m) /\ snap' = AbsC(MkS(m)) /\ k' = 0 /\ tag' = "run" /\ left' = FALSE /\ sd' = sd
   \/ /\ tag = "run"
      /\ m' = EdgeF(m)
      /\ k' = k + 1
-     /\ snap' = snap
+     /\ snap' = snap /\ sd' = sd
      /\ left' = (left \/ ~Boundary(m'))
      \* done: next boundary reached / halted;  stuck: an edge changes nothing (or the limit is hit)
      /\ tag' = IF (left' /\ Boundary(m')) \/ m'.st # "Running" THEN "done"
@@ -100,4 +100,7 @@ Debug == (Refines /\ CostOk) \/
                  BusRead(snap, (snap.regs[3] + 2) % 256), k, Expect.cyc, m.st, Expect.st, tag,
                  IF Expect.st = "Running" /\ m.st = "Running" THEN Diff(AbsC(m), [Expect EXCEPT !.cyc = 0]) ELSE {},
                  m.regs, Expect.regs>>)>>) /\ FALSE)
+\* for the harness (S->I): the seed, the number of edges and the micro-level state reached; the check rebuilds the seed state
+\* with the verif hooks on the real machine, issues k edges and compares every field
+Emit == tag = "done" => PrintT(<<"REPLAY", ToJson([sd |-> sd, k |-> k, s |-> ProjNoRam(m)])>>)
 =====================================================================
